@@ -1,5 +1,10 @@
 package main
 
+import (
+	"regexp"
+	"strings"
+)
+
 // Replay for C06: pointers to local variables of several kinds, taken at nesting depth 0..4, and
 // closures over locals, must keep their values while every pooled frame is recycled and its slots
 // overwritten by a deep recursion; repeated, so that frames come from the pool.
@@ -90,7 +95,28 @@ func TestGowpReplayC06Calls(t *testing.T) {
 				t.Fatalf("GOWP-REPLAY-FAIL call of a func() variable declared several frames above the call: %s = %v (panic %v), want %s; program: %s", p.call, res, err, p.want, p.src)
 			}
 		}
-		gowpEval06(ir, "var gf func() = nil; var gn int")
+		for _, p := range []struct{ src, call, want string }{
+			{"func r0() int { g := func() int { return 7 }; return g() }", "r0()", "7"},
+			{"func r1() int { g := func() int { return 8 }; { a := 1; return g() + a } }", "r1()", "9"},
+			{"func r2() int { g := func() int { return 10 }; h := func() int { return 20 }; _ = h; { a := 1; h := func() int { return 30 }; _ = h; { b := 2; return g() + a + b } } }", "r2()", "13"},
+			{"func r2b() float64 { g := func() float64 { return 1.5 }; { a := 1.0; { b := 2.0; return g() + a + b } } }", "r2b()", "4.5"},
+			{"func r3() int { g := func() int { return 10 }; { a := 1; { b := 2; { c := 3; return g() + a + b + c } } } }", "r3()", "16"},
+		} {
+			if _, err := gowpEval06(ir, p.src); err != nil {
+				t.Fatalf("GOWP-REPLAY-FAIL setup %s: %v", p.src, err)
+			}
+			if res, err := gowpEval06(ir, p.call); err != nil || fmt.Sprint(res) != p.want {
+				t.Fatalf("GOWP-REPLAY-FAIL call of a function variable declared above the call: %s = %v (panic %v), want %s; program: %s", p.call, res, err, p.want, p.src)
+			}
+		}
+		//CACHE-HISTORY
+	}
+}
+`
+
+// the history that exhibits known finding F23; part of the replay only for the obligations of the
+// closures that cache the callee
+const replayC06Cache = `		gowpEval06(ir, "var gf func() = nil; var gn int")
 		gowpEval06(ir, "gf = func() { gn += 1 }")
 		gowpEval06(ir, "func callgf() { gf() }")
 		gowpEval06(ir, "callgf()")
@@ -99,13 +125,20 @@ func TestGowpReplayC06Calls(t *testing.T) {
 		if res, err := gowpEval06(ir, "gn"); err != nil || fmt.Sprint(res) != "101" {
 			t.Fatalf("GOWP-REPLAY-FAIL history: var gf func(); gf = func() { gn += 1 }; func callgf() { gf() }; callgf(); gf = func() { gn += 100 }; callgf(); gn = %v (panic %v), want 101: the call site keeps calling the function gf held at its first execution", res, err)
 		}
-	}
-}
 `
+
+func c06Source(_ map[string]string, ob string) string {
+	cached := strings.Contains(ob, "call0ret0$2}") || regexp.MustCompile(`call0ret1\{kret=[0-9]+\}::`).MatchString(ob)
+	if cached {
+		return strings.Replace(replayC06, "//CACHE-HISTORY", replayC06Cache, 1)
+	}
+	return replayC06
+}
 
 func init() {
 	r := &replayer{pkg: "fast", test: "TestGowpReplayC06$", kind: "search", source: func(map[string]string, string) string { return replayC06 }}
-	replayers["fast.(*Comp).call0ret0"] = &replayer{pkg: "fast", test: "TestGowpReplayC06Calls", kind: "search", source: func(map[string]string, string) string { return replayC06 }}
+	replayers["fast.(*Comp).call0ret1"] = &replayer{pkg: "fast", test: "TestGowpReplayC06Calls", kind: "search", source: c06Source}
+	replayers["fast.(*Comp).call0ret0"] = &replayer{pkg: "fast", test: "TestGowpReplayC06Calls", kind: "search", source: c06Source}
 	for _, f := range []string{"fast.(*Var).Address", "fast.(*Env).freeEnv", "fast.(*Env).MarkUsedByClosure", "fast.newEnv", "fast.NewEnv", "fast.(*Env).FreeEnv", "fast.(*Env).freeEnv4Func"} {
 		replayers[f] = r
 	}
